@@ -28,7 +28,8 @@ def requirements(tier):
     k = 1 if tier == "quick" else 12
     return {"min_counters": {"specs_compared": 40 * k, "observations_compared": 600 * k, "interpreter_processes": 30 * k, "specs_with_history": 15 * k,
                              "list_permutation_variants": 50 * k},
-            "required_classes": ["job_shared_by_2_patterns", "network_shared", "country_shared", "several_jobs_in_a_step", "multi_timezone"]}
+            "required_classes": ["job_shared_by_2_patterns", "network_shared", "country_shared", "several_jobs_in_a_step", "multi_timezone",
+                                 "same_identifiers_twice_in_one_process"]}
 
 
 def permuted_lists(spec, rnd):
@@ -88,6 +89,11 @@ def run_case(case):
             if not hist and v % 2 == 1:
                 sp = permuted_lists(spec, rnd); C["list_permutation_variants"] += 1
             variants.append({"key": key, "variant": v, "spec": sp, "order": order, "id_seed": rnd.getrandbits(30), "edits": hist})
+        if hist:
+            # the same model once more with the SAME identifiers, later in the same process (a saved model loaded twice), then edited
+            variants.append({"key": key, "variant": len(variants), "spec": spec, "order": list(variants[0]["order"]), "id_seed": variants[0]["id_seed"],
+                             "edits": hist})
+            classes.add("same_identifiers_twice_in_one_process")
         jobs_per_shard.extend(variants)
     tmp = tempfile.mkdtemp(prefix="c19")
     results = {}
